@@ -1042,18 +1042,19 @@ class MutableFileVersion:
         offset. I return a Deferred that fires when this has been
         completed.
         """
-        new_size = data.get_size() + offset
         old_size = self.get_size()
         segment_size = self._version[3]
-        num_old_segments = mathutil.div_ceil(old_size,
-                                             segment_size)
-        num_new_segments = mathutil.div_ceil(new_size,
-                                             segment_size)
-        log.msg("got %d old segments, %d new segments" % \
-                        (num_old_segments, num_new_segments))
 
-        # We do a whole file re-encode if the file is an SDMF file.
+        # We do a whole file re-encode if the file is an SDMF file. (This
+        # test comes first: an empty SDMF file has a segment size of 0.)
         if self._version[2]: # version[2] == SDMF salt, which MDMF lacks
+            log.msg("doing re-encode instead of in-place update")
+            return self._do_modify_update(data, offset)
+        # The in-place update starts from the segment that contains the
+        # offset. There is no such segment when the file is empty, or when
+        # data is appended to a file that ends exactly at a segment boundary:
+        # re-encode in those cases, too.
+        if old_size == 0 or (offset == old_size and old_size % segment_size == 0):
             log.msg("doing re-encode instead of in-place update")
             return self._do_modify_update(data, offset)
 
